@@ -13,37 +13,33 @@ Driver family `timer` (C16).
 Script: operations separated by `;`, fields by `,`.  The first character of a session operation is
 the session (`a` | `b`):
   `aS,<k>,<idhex|->,<targethex|->,<delay>,<v|l|c<n>>` send event `k`; payload = current x, the array [x] by location, or constant n
-  `aC,<idhex>`   cancel        `aA,<n>`   x := n        `aX`   session thread ends     `aZ`   its timer sees Stop
+  `aC,<idhex>`   cancel        `aA,<n>`   x := n        `aX`   session thread ends (all guards dropped)     `aZ`   its timer sees Stop
   `T,<t>`        time passes to `t` and both timer threads run (session a first)
   `H,<ms>`       the distance to chrono's largest date (first operation of a script)
-Reply: `k:payload:time:via:sess:idhex,…` (or `.`) then ` pend=<a>,<b> err=<a>,<b> crash=<a>,<b>`.
+Reply: `k:payload:time:via:sess:idhex,…` (or `.`) then ` pend=<a>,<b> err=<a>,<b> crash=0,0`
+(no modelled operation ends in a panic of the session thread any more; the field is kept for the harness,
+which compares it with the panic flag of every real sender thread).
 -/
 namespace Driver.Timer
 open Rfsm Rfsm.Wire Rfsm.Timer
 
 abbrev Ev := Nat × Bool × Nat   -- (event number, payload is the array `arr` taken by location, payload value)
 
-/-- `arr = [x]` taken by `<param location>` shares its element with the datamodel -/
-def evDeref : Nat → Ev → Ev := fun d e => if e.2.1 then (e.1, true, d) else e
-
 structure W where
   w : World Nat Ev
   /-- deliveries of both sessions in the order they were made: (session, delivery) -/
   glog : List (Nat × Delivery Ev)
 
-def W.init : W := ⟨⟨Timer.initWith evDeref 0, Timer.initWith evDeref 0⟩, []⟩
+def W.init : W := ⟨⟨Timer.init 0, Timer.init 0⟩, []⟩
 
 def newDeliveries (before after : List (Delivery Ev)) : List (Delivery Ev) := after.drop before.length
 
-/-- a calm run: when the session thread panics its timer sees the Stop message at once -/
-def settle (t : Timer Nat Ev) : Timer Nat Ev := if t.crashed && !t.stopped then t.stop else t
-
 def W.stepA (s : W) (op : Op Nat Ev) : W :=
-  let a' := settle (s.w.a.step op)
+  let a' := s.w.a.step op
   ⟨{ s.w with a := a' }, s.glog ++ (newDeliveries s.w.a.log a'.log).map (fun d => (0, d))⟩
 
 def W.stepB (s : W) (op : Op Nat Ev) : W :=
-  let b' := settle (s.w.b.step op)
+  let b' := s.w.b.step op
   ⟨{ s.w with b := b' }, s.glog ++ (newDeliveries s.w.b.log b'.log).map (fun d => (1, d))⟩
 
 def optHex (s : String) : Option (Option (List Nat)) :=
@@ -107,7 +103,7 @@ def showDelivery (p : Nat × Delivery Ev) : String :=
 def showRun (s : W) : String :=
   (if s.glog.isEmpty then "." else ",".intercalate (s.glog.map showDelivery)) ++
   s!" pend={s.w.a.pending.length},{s.w.b.pending.length} err={s.w.a.errors},{s.w.b.errors}" ++
-  s!" crash={if s.w.a.crashed then 1 else 0},{if s.w.b.crashed then 1 else 0}"
+  " crash=0,0"
 
 /-! ### how robust is the exact value against `f64` rounding? -/
 
@@ -231,6 +227,7 @@ def oracle (sends : List OSend) (cancels : List OCancel) (terms : List OTerm) (r
     let deadForSure := ts.any fun t => t.joined < s.dueLo
     let maybeDead := ts.any fun t => t.pre < s.dueHi + graceUs
     -- a later delayed send with the same id in the same session, possibly while this one was pending
+    -- (it must not matter: P15 repaired; only the name of the failure tells the cases apart)
     let overwritten := s.delayMs > 0 ∧ s.id.isSome ∧ sends.any fun s2 =>
       s2.k ≠ s.k ∧ s2.sess = s.sess ∧ s2.id = s.id ∧ s2.delayMs > 0 ∧ s.post < s2.pre ∧ s2.pre < s.dueHi + graceUs
     (if rs.any (fun r => r.ts < s.dueLo) then [s!"early:{s.k}"] else []) ++
